@@ -157,20 +157,33 @@ def run_inst(ctx, cfgs):
 # =========================================================================================
 def case_key(rec):
     i = rec["id"]
-    return json.dumps([i["slots"], i["bound"], i["targ"], i["narg"], i.get("eq", False)], sort_keys=True)
+    return json.dumps([i["slots"], i["bound"], i["targ"], i["narg"], i.get("eq", False), i.get("zero", False)],
+                      sort_keys=True)
 
 
 def equal_mono_before_open(rec) -> bool:
     """foo or mid keeps a parameter generic after >= 2 monomorphised parameters that were
     given EQUAL arguments (parameters must be counted by position, not by value)."""
-    for f in ("foo", "mid"):
-        mono = rec[f]["mono"]
+    for f, rd in ((f, rd) for f in ("foo", "mid") for rd in rec["rounds"]):
+        mono = rd[f]["mono"]
         for i, a in enumerate(mono):
             if a == ["-"]:
                 before = [json.dumps(x) for x in mono[:i] if x != ["-"]]
                 if len(before) != len(set(before)):
                     return True
     return False
+
+
+def forwards_two_constants(rec) -> bool:
+    """mid is instantiated at two different monomorphised constant vectors in one compile and
+    forwards them to foo (two instances of foo expected)."""
+    a, b = rec["rounds"][0], rec["rounds"][1]
+    return a["mid"]["mono"] != b["mid"]["mono"] and a["foo"]["mono"] != b["foo"]["mono"]
+
+
+def partially_mono(rec) -> bool:
+    m = rec["rounds"][0]["foo"]["mono"]
+    return any(a != ["-"] for a in m) and any(a == ["-"] for a in m)
 
 
 def variant_jobs(recs):
@@ -184,7 +197,7 @@ def variant_jobs(recs):
             if src in seen:
                 continue
             seen[src] = v
-            jobs.append({"id": [ci, v], "src": src, "funcs": ["foo", "mid"]})
+            jobs.append({"id": [ci, v], "src": src, "funcs": tp.func_names(rec, v)})
     return jobs
 
 
@@ -200,12 +213,11 @@ def judge_variant(rec, variant, res):
     exp = tp.expected_events(rec)
     if res.get("end") != "return" or res.get("other_events"):
         return "abnormal-end", {"end": res.get("end"), "other": res.get("other_events")}
-    if res["events"] != exp:
-        return "results", {"observed": res["events"], "expected": exp}
-    for f in ("foo", "mid"):
-        want = [] if variant == "closed" else rec[f]["hugr"]
-        if res["defs"].get(f) != [want]:
-            return "hugr-params:" + f, {"observed": res["defs"].get(f), "expected": [want]}
+    if tp.strict(res["events"]) != tp.strict(exp):
+        return "results", {"observed": tp.strict(res["events"]), "expected": tp.strict(exp)}
+    for f, want in tp.expected_defs(rec, variant).items():
+        if sorted(res["defs"].get(f, [])) != want:
+            return "hugr-params:" + f.split("_")[0], {"function": f, "observed": res["defs"].get(f), "expected": want}
     return None
 
 
@@ -228,6 +240,9 @@ def run_mono(ctx, recs, stats):
         if verdict is not None:
             kinds = "".join(sorted({s[0] for s in rec["id"]["slots"]}))
             key = f"mono:{v}:{verdict[0]}:slots={kinds}"
+            if rec["id"].get("zero") and v == "generic" and verdict[0].split(":")[0] in ("results", "hugr-params"):
+                # +0.0 and -0.0 are different constants; one key for this family
+                key = "mono:generic:float-comptime-plus-and-minus-zero-share-one-instance"
             groups.setdefault(key, []).append({"rec": rec, "variant": v, "detail": verdict[1], "src": j["src"]})
     for key, cases in sorted(groups.items()):
         c = cases[0]
@@ -277,12 +292,16 @@ def run(ctx):
         # (simulation, seeded) from the <= 3 slot family
         recs = mono_records(ctx, "TypeAlg_Mono.cfg", simulate=30, seed=ctx.seed)
         rng.shuffle(recs)
-        recs = recs[:60]
+        recs = recs[:50]
         # plus equal-argument cases (exhaustively model-checked): distinct parameters, same value
         eqs = mono_records(ctx, "TypeAlg_Mono_eq.cfg")
         rng.shuffle(eqs)
         hit = [r for r in eqs if equal_mono_before_open(r)]
         recs += hit[:24] + [r for r in eqs if not equal_mono_before_open(r)][:8]
+        # plus cases whose two rounds pass +0.0 and -0.0 for the same float @comptime parameter
+        zeros = mono_records(ctx, "TypeAlg_Mono_zero.cfg")
+        rng.shuffle(zeros)
+        recs += zeros[:6]
     else:
         full = mono_records(ctx, "TypeAlg_Mono.cfg")  # exhaustive, <= 3 slots
         small = [r for r in full if len(r["id"]["slots"]) <= 2]
@@ -291,13 +310,16 @@ def run(ctx):
         hit = [r for r in big if equal_mono_before_open(r)]
         recs = small + hit + [r for r in big if not equal_mono_before_open(r)][:1100]
     mstats["cases"] = len(recs)
-    mstats["partial_cases"] = sum(
-        1 for r in recs if any(a != ["-"] for a in r["foo"]["mono"]) and any(a == ["-"] for a in r["foo"]["mono"]))
+    mstats["partial_cases"] = sum(1 for r in recs if partially_mono(r))
+    mstats["two_constant_vectors_forwarded"] = sum(1 for r in recs if forwards_two_constants(r))
+    mstats["through_struct"] = sum(1 for r in recs if forwards_two_constants(r) and any(s[0] == "G" for s in r["id"]["slots"]))
+    mstats["float_zero_sign_cases"] = sum(1 for r in recs if r["id"].get("zero"))
     mstats["equal_args_cases"] = sum(1 for r in recs if equal_mono_before_open(r))
     ctx.log(f"(b) {len(recs)} cases ({mstats['partial_cases']} partially monomorphised, "
             f"{mstats['equal_args_cases']} with equal monomorphised arguments before a generic parameter)")
     jobs = run_mono(ctx, recs, mstats)
-    if (mstats["partial_cases"] == 0 or mstats["equal_args_cases"] == 0) and not tiny:
+    if not tiny and min(mstats["partial_cases"], mstats["equal_args_cases"], mstats["two_constant_vectors_forwarded"],
+                        mstats["through_struct"], mstats["float_zero_sign_cases"]) == 0:
         raise lib.Machinery(f"vacuous sample: {mstats}")
     ctx.coverage.update({
         "traces_validated_against_impl": istats["one"] + istats["two"] + mstats["programs"],
@@ -306,8 +328,9 @@ def run(ctx):
         "rule": "(a) instantiation cases where a kept parameter follows an instantiated one (its de Bruijn index "
                 "must shift); (b) call chains in which foo is monomorphised in some parameters and stays generic "
                 "in others",
-        "samples": isamples[:3] + [{"slots": r["id"]["slots"], "foo_mono": r["foo"]["mono"], "hugr": r["foo"]["hugr"],
-                                    "expected": r["expected"]} for r in recs[:2]],
+        "samples": isamples[:3] + [{"slots": r["id"]["slots"], "foo_mono": [rd["foo"]["mono"] for rd in r["rounds"]],
+                                    "hugr": r["rounds"][0]["foo"]["hugr"],
+                                    "expected": [rd["expected"] for rd in r["rounds"]]} for r in recs[:2]],
         "exhaustive": not ctx.quick,
         "instantiate_partial": istats,
         "programs": mstats["programs"],
@@ -347,9 +370,9 @@ def replay(ctx, data):
         for c in rp["cases"]:
             src = tp.render(c["rec"], c["variant"])
             print(src)
-            r = tp.run_variant({"id": 0, "src": src, "funcs": ["foo", "mid"]})
+            r = tp.run_variant({"id": 0, "src": src, "funcs": tp.func_names(c["rec"], c["variant"])})
             print("observed:", json.dumps(r)[:1500])
-            print("expected events:", tp.expected_events(c["rec"]), "hugr:", c["rec"]["foo"]["hugr"], c["rec"]["mid"]["hugr"])
+            print("expected events:", tp.expected_events(c["rec"]), "defs:", tp.expected_defs(c["rec"], c["variant"]))
 
 
 def selftest(ctx):
@@ -384,26 +407,34 @@ def selftest(ctx):
     recs = mono_records(ctx, "TypeAlg_Mono_tiny.cfg")
     rec = next(r for r in recs if r["id"]["slots"][0][0] == "K")
     src = tp.render(rec, "generic")
-    res = tp.run_variant({"id": 0, "src": src, "funcs": ["foo", "mid"]})
+    res = tp.run_variant({"id": 0, "src": src, "funcs": tp.func_names(rec, "generic")})
     if judge_variant(rec, "generic", res) is not None:
         raise lib.Machinery(f"selftest: unchanged generic program judged bad: {judge_variant(rec, 'generic', res)}")
+    if not forwards_two_constants(rec) or len(res["defs"]["foo"]) != 2:
+        raise lib.Machinery("selftest: the K case does not produce two instances of foo")
     bad = copy.deepcopy(rec)
-    bad["expected"][0][1][1] += 1
+    bad["rounds"][1]["expected"][0][1][1] += 1
     if judge_variant(bad, "generic", res) is None:
         raise lib.Machinery("selftest: corrupted expected result accepted")
     bad = copy.deepcopy(rec)
-    bad["foo"]["hugr"] = ["nat"]
+    bad["rounds"][0]["foo"]["hugr"] = ["nat"]
     if judge_variant(bad, "generic", res) is None:
         raise lib.Machinery("selftest: corrupted Hugr parameter expectation accepted")
-    wrong = copy.deepcopy(rec)  # specialised copy built from a wrong inferred argument
+    bad = copy.deepcopy(rec)  # "both instances of mid call the same instance of foo"
+    bad["rounds"][1]["foo"]["mono"] = bad["rounds"][0]["foo"]["mono"]
+    if judge_variant(bad, "generic", res) is None:
+        raise lib.Machinery("selftest: a wrong number of expected foo instances was accepted")
+    wrong = copy.deepcopy(rec)  # specialised copy built from a wrong inferred argument (round 2)
     for fn in ("foo", "mid"):
-        for nm, a in wrong[fn]["csubst"]:
+        for nm, a in wrong["rounds"][1][fn]["csubst"]:
             if a[0] == "C":
                 a[1][2] = ["val", ["int", 99]]
-    res2 = tp.run_variant({"id": 1, "src": tp.render(wrong, "closed"), "funcs": ["foo", "mid"]})
+    res2 = tp.run_variant({"id": 1, "src": tp.render(wrong, "closed"), "funcs": tp.func_names(rec, "closed")})
     if judge_variant(rec, "closed", res2) is None:
         raise lib.Machinery("selftest: a copy specialised with the wrong constant was accepted")
-
+    # +0.0 / -0.0 are told apart by the comparison
+    if tp.strict([["r", "f64", 0.0]]) == tp.strict([["r", "f64", -0.0]]):
+        raise lib.Machinery("selftest: event comparison does not distinguish -0.0 from 0.0")
 
 if __name__ == "__main__":
     lib.main("C13", run, replay, selftest)
